@@ -121,7 +121,17 @@ pub fn run_batch(prop: &dyn Prop, args: &Args, runs: u64) -> BatchResult {
                         st.runs += 1;
                         st.ops += sc.ops.len() as u64;
                         st.count_faults(&sc);
+                        // C01 publishes every single operation to the watchdog; for the other
+                        // checks the whole run is watched, so that code that stops terminating
+                        // is reported as a hang instead of hanging the check
+                        let whole_run = prop.id() != "C01";
+                        if whole_run {
+                            watchdog::enter(usize::MAX);
+                        }
                         let v = prop.judge(&sc, Some(&mut st));
+                        if whole_run {
+                            watchdog::leave();
+                        }
                         if args.log_hashes {
                             let mut h = crate::rng::Fnv::default();
                             h.write_str(&sc.to_json().to_string_compact());
@@ -208,18 +218,17 @@ pub fn run_batch(prop: &dyn Prop, args: &Args, runs: u64) -> BatchResult {
 fn report_hang(prop: &dyn Prop, args: &Args, (run, op_index): (u64, usize)) -> ! {
     let seed = run_seed(args.seed, run);
     let mut sc = prop.generate(seed, run);
-    sc.ops.truncate(op_index + 1);
+    sc.ops.truncate(op_index.saturating_add(1));
     let v = Violation {
         prop: prop.id().into(),
         clause: "hang".into(),
-        at: op_index,
+        at: if op_index == usize::MAX { 0 } else { op_index },
         build: "?".into(),
-        detail: format!(
-            "operation {} of run {} did not return within {} s",
-            op_index,
-            run,
-            watchdog::LIMIT_S
-        ),
+        detail: if op_index == usize::MAX {
+            format!("run {} did not finish within {} s", run, watchdog::LIMIT_S * 6)
+        } else {
+            format!("operation {} of run {} did not return within {} s", op_index, run, watchdog::LIMIT_S)
+        },
         site: "hang".into(),
     };
     // (the replay file is written without re-executing the schedule: it would hang again)
